@@ -254,6 +254,19 @@ def one_case(rec, rng, cid):
         if not idnt.fit_properties.get("success", True):
             judge_curve(rec, rng, idnt, dict(case, state="unsuccessful-fit"),
                         False)
+    # multi-pass fit whose first pass succeeds and whose last pass has too
+    # few points: success False although an earlier pass left parameters
+    try:
+        idnt.fit_model(model_key=mk, range_type="relative cp",
+                       range_x=[float(rng.uniform(5e-4, 2e-3)), 3e-3])
+    except BaseException:  # noqa
+        pass
+    else:
+        if not idnt.fit_properties.get("success", True):
+            judge_curve(rec, rng, idnt,
+                        dict(case, state="unsuccessful-multi-pass-fit"),
+                        False)
+    idnt.fit_properties["range_type"] = "absolute"
     # ---- fitted
     kw = dict(model_key=mk, range_x=[0, 0])
     if rng.random() < .3:
